@@ -173,6 +173,68 @@ Section Group.
     apply (from_group_gen target root [] (mI N) g Manc Hs Hg).
   Qed.
 
+  (* ---- recursive=False ---- *)
+  Definition gf_nr (target : position) : position -> bool := fun p => is_prefix p target.
+
+  Lemma is_prefix_snoc_self p j : is_prefix (p ++ [j]) p = false.
+  Proof. induction p as [|i p IH]; cbn; [reflexivity|]. rewrite Nat.eqb_refl, IH. reflexivity. Qed.
+  Lemma gf_nr_route p i t j : gf_nr (p ++ i :: t) (p ++ [j]) = Nat.eqb j i.
+  Proof.
+    unfold gf_nr. rewrite is_prefix_app_l. cbn [is_prefix]. rewrite andb_true_r. reflexivity.
+  Qed.
+
+  Lemma shapes_all_direct M tf kids :
+    shapes_all N (mmul N M (tlist_spec N tf)) kids = direct_ref N (Group tf kids) M.
+  Proof.
+    cbn [direct_ref]. induction kids as [|ch r IH]; [reflexivity|].
+    destruct ch as [tfc ks|k a t]; cbn [shapes_all flat_map app].
+    - exact IH.
+    - rewrite (parse_tf_spec N OK t), IH. reflexivity.
+  Qed.
+
+  Lemma from_group_nr_gen : forall t (n : node) p M0 g Manc,
+      subtree_at N n t M0 = Some (g, Manc) -> is_group g ->
+      Permutation (dfs_rev N (gf_nr (p ++ t)) (pf_of (p ++ t)) n p
+                           (mmul N M0 (parse_tf N (tf_of n))))
+                  (direct_ref N g Manc).
+  Proof.
+    induction t as [|i t IH]; intros n p M0 g Manc Hs Hg.
+    - cbn [subtree_at] in Hs. inversion Hs; subst g Manc. rewrite app_nil_r.
+      destruct n as [tf kids|]; [|contradiction]. cbn [tf_of].
+      rewrite dfs_rev_group.
+      rewrite (go_rev_none (gf_nr p) (pf_of p) p _ kids O)
+        by (intros j _; unfold gf_nr; apply is_prefix_snoc_self).
+      rewrite app_nil_r, (parse_tf_spec N OK tf), <- shapes_all_direct.
+      unfold shapes_of.
+      erewrite flat_map_ext.
+      2:{ intros key. apply (shapes_kind_ext (pf_of p) tt_).
+          intros j. apply pf_below. discriminate. }
+      apply shapes_of_perm.
+    - destruct n as [tf kids|]; [|discriminate]. cbn [subtree_at tf_of] in *.
+      destruct (nth_error kids i) as [c|] eqn:En; [|discriminate].
+      rewrite dfs_rev_group.
+      assert (Hsh : shapes_of N (pf_of (p ++ i :: t)) (mmul N M0 (parse_tf N tf)) p kids = []).
+      { unfold shapes_of, kinds_document. cbn [flat_map].
+        rewrite !shapes_kind_none by (intros j; apply pf_route). reflexivity. }
+      rewrite Hsh. cbn [app].
+      rewrite (go_rev_select _ _ p _ kids O i) by (intros j; apply gf_nr_route).
+      rewrite En. cbn [Nat.add].
+      destruct c as [tfc ks|k a tfc].
+      + replace (p ++ i :: t) with ((p ++ [i]) ++ t) by (rewrite <- app_assoc; reflexivity).
+        rewrite (parse_tf_spec N OK tf).
+        apply (IH (Group tfc ks) (p ++ [i]) (mmul N M0 (tlist_spec N tf)) g Manc Hs Hg).
+      + destruct t; cbn [subtree_at] in Hs; [|discriminate].
+        inversion Hs; subst g. contradiction.
+  Qed.
+
+  Theorem from_group_nr_is_ref (root : node) target g Manc :
+    subtree_at N root target (mI N) = Some (g, Manc) -> is_group g ->
+    Permutation (from_group_nr N root target) (direct_ref N g Manc).
+  Proof.
+    intros Hs Hg. unfold from_group_nr. rewrite flatten_stack_f_dfs. cbn [is_prefix].
+    apply (from_group_nr_gen target root [] (mI N) g Manc Hs Hg).
+  Qed.
+
   Lemma subtree_node_at : forall t (n : node) M0 g M,
       subtree_at N n t M0 = Some (g, M) -> node_at n t = Some g.
   Proof.
